@@ -30,6 +30,7 @@ def run(ctx):
     a_stop_discipline(ctx, t)
     b_siblings(ctx, t)
     d_activation(ctx)
+    e_start_under_live_parent(ctx, t)
     try:
         from . import C12
         C12.scope_pairing(ctx, "C06.c.scopes")
@@ -246,3 +247,24 @@ def _anc(node, stop):
     while p is not None and p is not stop:
         yield p
         p = getattr(p, "_parent", None)
+
+
+def e_start_under_live_parent(ctx, t):
+    """A flow can only be bounded by its parent's lifetime if it is linked to a parent that is still
+    running: the StartFlow event is processed later than it was sent, and the sender may have
+    ended in between."""
+    fn = find_function(t, "_start_flow")
+    if fn is None:
+        raise AnalysisError("_start_flow not found", anchor=SM + "::_start_flow")
+    cfg = CFG(fn)
+    links = [n for n in cfg.nodes if n.kind == "stmt" and isinstance(n.ast, ast.Expr) and isinstance(n.ast.value, ast.Call)
+             and isinstance(n.ast.value.func, ast.Attribute) and n.ast.value.func.attr == "append" and src(n.ast.value.func.value).endswith(".child_flow_uids")]
+    ctx.floor("C06.e.live-parent", SM, "parent links created in _start_flow", len(links), 1)
+    for l in links:
+        parent = src(l.ast.value.func.value).rsplit(".", 1)[0]
+        tests = [n for n in cfg.nodes if n.kind == "test" and cfg.dominates(n, l) and parent in src(n.ast)
+                 and re.search(r"is_listening_flow|is_active_flow|is_inactive_flow|\.status", src(n.ast))]
+        ctx.check("C06.e.live-parent", SM, "_start_flow", first_line(l.ast), bool(tests),
+                  "the new instance is linked to `%s` only after a liveness test of that parent" % parent if tests else
+                  "the new instance is linked to `%s` without checking that this parent is still running: a StartFlow that is processed after its sender was stopped creates a child of a dead flow, which nobody stops any more" % parent,
+                  line=l.line)
